@@ -143,10 +143,6 @@ func cmdVerify(args []string) {
 	}
 }
 
-func cmdCheck(args []string) {
-	fmt.Fprintln(os.Stderr, "check: not implemented yet")
-	os.Exit(2)
-}
 
 func init() {
 	if os.Getenv("SPOKVC_DEBUGKEYS") != "" {
